@@ -16,7 +16,15 @@ T_KSetup == /\ Ev.ev = "Setup" /\ scn' = ScnOf(Ev)
             /\ Frozen
 Reachable == DistFrom(scn.src)[scn.dst] < Inf
 RouteOfEv(r) == [i \in DOMAIN r |-> [e |-> r[i].e, st |-> r[i].st, acc |-> r[i].acc, trv |-> r[i].trv]]
-RoutesOfEv == [i \in DOMAIN Ev.routes |-> RouteOfEv(Ev.routes[i])]
+(* edge-oriented queries: every returned route is the origin edge (zero cost, initial state), a route of the inner search
+   (scn.src -> scn.dst) and the destination edge (zero cost, state unchanged); the contract is judged on the inner routes *)
+EdgeMode == scn.orient = "edge"
+Wrapped(r) == /\ Len(r) >= 3
+              /\ r[1] = [e |-> scn.osrc, st |-> scn.init, acc |-> 0, trv |-> 0]
+              /\ r[Len(r)] = [e |-> scn.odst, st |-> r[Len(r) - 1].st, acc |-> 0, trv |-> 0]
+Inner(r) == IF EdgeMode /\ Len(r) >= 3 THEN SubSeq(r, 2, Len(r) - 1) ELSE r
+AllWrapped == EdgeMode => \A i \in DOMAIN Ev.routes : Wrapped(RouteOfEv(Ev.routes[i]))
+RoutesOfEv == [i \in DOMAIN Ev.routes |-> Inner(RouteOfEv(Ev.routes[i]))]
 (* open findings of Yen's algorithm, each with its trigger *)
 ShortestLen == Len(Ev.first_route)
 YenKnown ==
@@ -28,16 +36,17 @@ YenKnown ==
 (* under the checks of C01 / C03 only the validity of every returned route (contiguous loop-free walk with
    correctly accumulated state and costs, incl. the re-oriented reverse half of single-via alternatives) is judged *)
 T_KResultRoutesOnly == /\ Ev.ev = "KResult" /\ ~Enforce("C13") /\ UNCHANGED <<scn, kq, remaining>> /\ Frozen
-                       /\ Ev.outcome = "ok" => Chk("C01/C03 every returned route is a valid walk with accumulated state", AllValid(RoutesOfEv))
+                       /\ Ev.outcome = "ok" => Chk("C01/C03 every returned route is a valid walk with accumulated state", AllWrapped /\ AllValid(RoutesOfEv))
                        /\ accepted' = <<>> /\ kdone' = TRUE
 T_KResult == /\ Ev.ev = "KResult" /\ Enforce("C13") /\ UNCHANGED <<scn, kq, remaining>> /\ Frozen
              /\ IF ~Reachable
                 THEN Chk("C13 unreachable destination reported as no path", Ev.outcome = "nopath") /\ accepted' = <<>> /\ kdone' = TRUE
-                ELSE IF Ev.outcome = "ok" /\ kq.k >= 1 /\ RoutesOK(RoutesOfEv, kq.k, kq.sim) /\ (Ev.n_accept_all < 0 \/ Ev.n_accept_all >= Len(Ev.routes))
+                ELSE IF Ev.outcome = "ok" /\ kq.k >= 1 /\ AllWrapped /\ RoutesOK(RoutesOfEv, kq.k, kq.sim) /\ (Ev.n_accept_all < 0 \/ Ev.n_accept_all >= Len(Ev.routes))
                 THEN accepted' = RoutesOfEv /\ kdone' = TRUE
                 ELSE IF kq.k = 0 /\ Ev.outcome = "ok" /\ Ev.routes = <<>> THEN accepted' = <<>> /\ kdone' = TRUE
                 ELSE IF YenKnown THEN accepted' = <<>> /\ kdone' = TRUE
                 ELSE /\ Chk("C13 the query must be answered", Ev.outcome = "ok")
+                     /\ Chk("C01 every route of an edge-oriented query starts with the origin edge and ends with the destination edge", AllWrapped)
                      /\ Chk("C13 between one and k routes", CountOK(RoutesOfEv, kq.k))
                      /\ Chk("C13 first route is a least-cost route", FirstOptimal(RoutesOfEv))
                      /\ Chk("C13 every route is a valid loop-free origin-destination route with accumulated state", AllValid(RoutesOfEv))
